@@ -154,26 +154,34 @@ def injections(rules):
         if pats:
             x = cp(); x[i]['cons'].append([K.CONS(pats[0], K.P('zz'))]); yield 'option-unknown-pattern', (i, 'newset'), x
             x = cp(); x[i]['cons'].append([K.CONS(pats[0], K.P('_'))]); yield 'temporary-as-option', (i, 'newset'), x
-    # cycles of length 2 and 3 through the first name item
+    # cycles of length 2 and 3 through the first name item; once through the FIRST definitions of the rules involved and
+    # once through their LAST ones (a rule defined several times: the error may sit in any of its definitions)
     first3 = True
+    firstdef = {q: next(i for i, r in enumerate(rules) if r['id'] == q) for q in ids}
+    lastdef = {q: max(i for i, r in enumerate(rules) if r['id'] == q) for q in ids}
     for a in range(len(ids)):
         for b in range(a + 1, len(ids)):
-            ia = next(i for i, r in enumerate(rules) if r['id'] == ids[a])
-            ib = next(i for i, r in enumerate(rules) if r['id'] == ids[b])
-            x = cp(); x[ia]['name'][0] = K.R(ids[b]); x[ib]['name'][-1] = K.R(ids[a]); yield 'reference-cycle-2', (ia, ib), x
-            x = cp(); x[ia]['sign'] = x[ia]['sign'] + [ids[b]]; x[ib]['sign'] = x[ib]['sign'] + [ids[a]]
-            yield 'signing-cycle-2', (ia, ib), x
+            for which, dd in (('', firstdef), ('@later-definition', lastdef)):
+                ia, ib = dd[ids[a]], dd[ids[b]]
+                if which and (ia, ib) == (firstdef[ids[a]], firstdef[ids[b]]):
+                    continue
+                x = cp(); x[ia]['name'][0] = K.R(ids[b]); x[ib]['name'][-1] = K.R(ids[a]); yield 'reference-cycle-2' + which, (ia, ib), x
+                x = cp(); x[ia]['sign'] = x[ia]['sign'] + [ids[b]]; x[ib]['sign'] = x[ib]['sign'] + [ids[a]]
+                yield 'signing-cycle-2' + which, (ia, ib), x
             for c in range(b + 1, len(ids)):
                 if not first3:
                     break
                 first3 = False
-                ic = next(i for i, r in enumerate(rules) if r['id'] == ids[c])
-                x = cp(); x[ia]['name'][0] = K.R(ids[b]); x[ib]['name'][0] = K.R(ids[c]); x[ic]['name'][0] = K.R(ids[a])
-                yield 'reference-cycle-3', (ia, ib, ic), x
-                x = cp()
-                for p, q in ((ia, b), (ib, c), (ic, a)):
-                    x[p]['sign'] = x[p]['sign'] + [ids[q]]
-                yield 'signing-cycle-3', (ia, ib, ic), x
+                for which, dd in (('', firstdef), ('@later-definition', lastdef)):
+                    ia, ib, ic = dd[ids[a]], dd[ids[b]], dd[ids[c]]
+                    if which and (ia, ib, ic) == (firstdef[ids[a]], firstdef[ids[b]], firstdef[ids[c]]):
+                        continue
+                    x = cp(); x[ia]['name'][0] = K.R(ids[b]); x[ib]['name'][0] = K.R(ids[c]); x[ic]['name'][0] = K.R(ids[a])
+                    yield 'reference-cycle-3' + which, (ia, ib, ic), x
+                    x = cp()
+                    for p, q in ((ia, b), (ib, c), (ic, a)):
+                        x[p]['sign'] = x[p]['sign'] + [ids[q]]
+                    yield 'signing-cycle-3' + which, (ia, ib, ic), x
 
 
 # ------------------------------------------------------------------ (ii) single-field corruptions of a binary model
@@ -381,7 +389,7 @@ def names_for(alpha, L, rng, k):
 def stage_b(ctx, procs):
     # ---- (1) ill-formed schema family
     (names, items), (tnames, titems) = K.par([
-        lambda: c11.enum_run(ctx, 'illformed', ctx.pick(19, 1), procs, tag='b'),
+        lambda: c11.enum_run(ctx, 'illformed', ctx.pick(19, 1), procs, tag='b', fs=8),     # TwinBad: every 8th
         lambda: c11.enum_run(ctx, 'trees', ctx.pick(5, 1), ctx.pick(2, procs), maxnodes=3, maxlen=2,
                              corrupt='parent', tag='t')])
     seen = {}
@@ -448,7 +456,7 @@ def stage_c(ctx, procs):
     rng = ctx.rng
     nschema = ctx.pick(12, 300)           # schemas that get every injection
     ncorrupt = ctx.pick(14, 150)          # schemas whose compiled model is corrupted field by field
-    gen = K.Gen(rng, p_forward=0.12)
+    gen = K.Gen(rng, p_forward=0.12, force_twin=0.5, foreign=0.3, flat=0.3)
     wrecs, srecs, meta = [], [], {}
     sid = 0
     ninj = ncor = nterm = 0
